@@ -19,7 +19,8 @@ RULE = ("one run = bring-up, one request of one of the 13 command variants (10 i
         "one link fault {write error, read error before / after the device acted, time-out before / "
         "after} at one exchange index (addressed through a fault-free dry run under the same device "
         "policy), then 1..3 follow-up requests while the reconnection is scripted {works, device absent "
-        "for j attempts, open fails for j attempts}; enumerated: every (variant, exchange index, fault "
+        "for j attempts, open fails for j attempts} - in one run in six the device had been unlocked by "
+        "the manager at start-up and comes back power-cycled (locked) -; enumerated: every (variant, exchange index, fault "
         "kind) for the tier's policy seeds; non-trivial = the fault fired; distinct = tuple (variant, "
         "step kind, fault kind, reconnection script, #follow-ups)")
 TIERS = {"quick": {"runs": 60000, "wall": 240}, "thorough": {"runs": 1500000, "wall": 3000}}
@@ -72,6 +73,7 @@ def run_one(ch, cfg):
     script = SCRIPTS[ch.draw(len(SCRIPTS), "reconnect-script")]
     heal = ch.draw(2, "operator-heals") == 0
     slow = None
+    pc = False
     if step[0] == "exit" and ch.draw(2, "slow-reboot") == 1:
         # no injected fault: after this EXIT the device simply stays off the bus for a while (longer
         # than the manager waits before re-opening) - a link failure as far as the request goes
@@ -82,7 +84,11 @@ def run_one(ch, cfg):
                                                 dcfg_override={key: {"delay": slow}})
         w.clock.advance(60.0)              # the follow-ups find the device back on the bus
     else:
-        w, rep, exc, xch, req = c04.run_request(variant, pseed, fault=(k, kind), cseed=cseed)
+        # one run in six: the manager found the device locked at start-up (and used its PIN), and after
+        # the link failure the device is back power-cycled - locked in the bootloader again
+        pc = ch.draw(6, "power-cycled-return") == 1 and variant != "uiHeartbeat"
+        w, rep, exc, xch, req = c04.run_request(variant, pseed, fault=(k, kind), cseed=cseed,
+                                                start_locked=pc)
     dev, link = w.device, w.link
     # in half of the runs the HID library is the one the repository documents for docker: it does not
     # notice a re-plug until hidapi_exit() resets it
@@ -163,11 +169,32 @@ def run_one(ch, cfg):
                 link.open_fail = 1
         else:
             dev.plugged = True
+        pc_now = pc and is_link_failure and not reconnected and not fail_now
+        if pc_now:
+            dev.mode = L.MODE_BOOTLOADER
+            dev.pinbuf = bytearray(10)
+            dev._reset_ops()
+            unlocks0 = dev.unlocks
         m0 = len(link.transport)
         in_signer = dev.mode == L.MODE_SIGNER
         dev.expect = copy.deepcopy(pexp)
         rep2, exc2 = w.request(probe)
         ev = link.transport[m0:]
+        if pc_now:
+            # the repair goes through the whole bring-up, unlock included, and the request is served
+            if exc2 is not None:
+                viol.append(("reconnect/manager-stopped:power-cycled",
+                             "%s %s at %s; device back locked in the bootloader -> %s: %s" % (
+                                 variant, kind, step, type(exc2).__name__, exc2)))
+                stopped = True
+                continue
+            if dev.unlocks != unlocks0 + 1 or dev.mode != L.MODE_SIGNER:
+                viol.append(("reconnect/power-cycled-not-unlocked",
+                             "unlock commands %d, device mode %r after the repair; reply %r" % (
+                                 dev.unlocks - unlocks0, dev.mode, rep2)))
+            elif not isinstance(rep2, dict) or rep2.get("errorcode") != 0:
+                viol.append(("reconnect/no-recovery", "device unlocked again and in signer mode but the "
+                             "follow-up answered %r" % (rep2,)))
         follow_log.append({"reply": rep2, "exc": type(exc2).__name__ if exc2 else None,
                            "transport": [e[0] if e[0] != "xchg" else "xchg:%02x" % e[2][1]
                                          for e in ev]})
